@@ -8,7 +8,7 @@ from . import facts as F
 from .engine import Analysis, CLS, PUBLIC_API
 from .loader import norm
 from .report import Rule
-from .rules_common import (MUT, primary, base_class, key_matches, showlock, site_text, site_func, site_loc,
+from .rules_common import (digest_checked_before_delete, MUT, primary, base_class, key_matches, showlock, site_text, site_func, site_loc,
                            mutation_events, resource_hits, func_nodes)
 from .terms import (AnalysisError, show, showv, tag, C, P, V, NONE, EMPTY, classify, is_rooted, is_summary,
                     subterms, PathClass)
@@ -207,6 +207,10 @@ def check_C04(A: Analysis, tier):
             if sf == Q("_move_and_get_checksums"):
                 if not ev.handling:
                     ra.fail(sf, site_text(ev), "object removal in _move_and_get_checksums outside the failed-move handler",
+                            site_loc(A, ev))
+                elif not digest_checked_before_delete(ev):
+                    ra.fail(sf, site_text(ev), "the failed-move handler removes the file at the permanent address on a path on which it has not read and hashed "
+                            "it (get_hex_digest did not return): the complete object a concurrent store of the same content has just published is removed",
                             site_loc(A, ev))
                 continue
             rb.ob()
@@ -1163,6 +1167,18 @@ def check_C15(A: Analysis, tier):
                 if not okd:
                     rc.fail(ev.func, ev.node, "the cid list is rewritten with something other than its own newline-terminated lines: the "
                             "one-pid-per-newline-terminated-line format is not preserved", A.p.loc(ev.func, ev.node))
+    # a handle opened in text mode is positioned only at 0 (or where tell() said): any computed offset is a character
+    # count, the file position is in bytes (and undefined for text files by the io documentation)
+    for e in ("delete_object", "tag_object"):
+        it = A.api(e, "th")
+        for ev in it.events:
+            if ev.kind == "HANDLEOP" and ev.prim == "file.seek" and "b" not in (ev.extra.get("mode") or "b"):
+                rc.ob()
+                rc.inst(f"{ev.func.qual}:{ev.line} seek on a text-mode handle")
+                a0 = (ev.extra.get("args") or [EMPTY])[0]
+                if not a0 or not all(t == C(0) or (tag(t) == "callres" and t[1] == "tell") for t in a0):
+                    rc.fail(ev.func, ev.node, f"text-mode seek to a computed offset ({showv(a0)[:60]}): characters are counted, bytes are addressed - with a non-ASCII "
+                            "pid earlier in the list the rewrite starts inside a line and the one-pid-per-line format is destroyed", A.p.loc(ev.func, ev.node))
     vr = A.p.func(Q("_verify_hashstore_references"))
     # the content error is raised exactly on inequality of the file's whole content with the cid argument
     it_v = A.run(Q("_verify_hashstore_references"), "th")
